@@ -49,6 +49,39 @@ theories/C15/Proofs.vos theories/C15/Proofs.vok theories/C15/Proofs.required_vos
 theories/C15/Props.vo theories/C15/Props.glob theories/C15/Props.v.beautified theories/C15/Props.required_vo: theories/C15/Props.v theories/C15/Model.vo theories/C15/Proofs.vo
 theories/C15/Props.vio: theories/C15/Props.v theories/C15/Model.vio theories/C15/Proofs.vio
 theories/C15/Props.vos theories/C15/Props.vok theories/C15/Props.required_vos: theories/C15/Props.v theories/C15/Model.vos theories/C15/Proofs.vos
+theories/C25/Examples.vo theories/C25/Examples.glob theories/C25/Examples.v.beautified theories/C25/Examples.required_vo: theories/C25/Examples.v theories/Base/Tactics.vo theories/Lib/ArchTree.vo theories/C25/Model.vo
+theories/C25/Examples.vio: theories/C25/Examples.v theories/Base/Tactics.vio theories/Lib/ArchTree.vio theories/C25/Model.vio
+theories/C25/Examples.vos theories/C25/Examples.vok theories/C25/Examples.required_vos: theories/C25/Examples.v theories/Base/Tactics.vos theories/Lib/ArchTree.vos theories/C25/Model.vos
+theories/C25/Model.vo theories/C25/Model.glob theories/C25/Model.v.beautified theories/C25/Model.required_vo: theories/C25/Model.v theories/Base/Tactics.vo theories/Lib/ArchTree.vo
+theories/C25/Model.vio: theories/C25/Model.v theories/Base/Tactics.vio theories/Lib/ArchTree.vio
+theories/C25/Model.vos theories/C25/Model.vok theories/C25/Model.required_vos: theories/C25/Model.v theories/Base/Tactics.vos theories/Lib/ArchTree.vos
+theories/C25/Proofs.vo theories/C25/Proofs.glob theories/C25/Proofs.v.beautified theories/C25/Proofs.required_vo: theories/C25/Proofs.v theories/Base/Tactics.vo theories/Lib/ArchTree.vo theories/C25/Model.vo
+theories/C25/Proofs.vio: theories/C25/Proofs.v theories/Base/Tactics.vio theories/Lib/ArchTree.vio theories/C25/Model.vio
+theories/C25/Proofs.vos theories/C25/Proofs.vok theories/C25/Proofs.required_vos: theories/C25/Proofs.v theories/Base/Tactics.vos theories/Lib/ArchTree.vos theories/C25/Model.vos
+theories/C25/Props.vo theories/C25/Props.glob theories/C25/Props.v.beautified theories/C25/Props.required_vo: theories/C25/Props.v theories/Base/Tactics.vo theories/Lib/ArchTree.vo theories/C25/Model.vo theories/C25/Proofs.vo
+theories/C25/Props.vio: theories/C25/Props.v theories/Base/Tactics.vio theories/Lib/ArchTree.vio theories/C25/Model.vio theories/C25/Proofs.vio
+theories/C25/Props.vos theories/C25/Props.vok theories/C25/Props.required_vos: theories/C25/Props.v theories/Base/Tactics.vos theories/Lib/ArchTree.vos theories/C25/Model.vos theories/C25/Proofs.vos
+theories/C26/Model.vo theories/C26/Model.glob theories/C26/Model.v.beautified theories/C26/Model.required_vo: theories/C26/Model.v theories/Base/Tactics.vo theories/Lib/ArchTree.vo
+theories/C26/Model.vio: theories/C26/Model.v theories/Base/Tactics.vio theories/Lib/ArchTree.vio
+theories/C26/Model.vos theories/C26/Model.vok theories/C26/Model.required_vos: theories/C26/Model.v theories/Base/Tactics.vos theories/Lib/ArchTree.vos
+theories/C26/Proofs.vo theories/C26/Proofs.glob theories/C26/Proofs.v.beautified theories/C26/Proofs.required_vo: theories/C26/Proofs.v theories/Base/Tactics.vo theories/Base/ListAux.vo theories/Lib/ArchTree.vo theories/C26/Model.vo
+theories/C26/Proofs.vio: theories/C26/Proofs.v theories/Base/Tactics.vio theories/Base/ListAux.vio theories/Lib/ArchTree.vio theories/C26/Model.vio
+theories/C26/Proofs.vos theories/C26/Proofs.vok theories/C26/Proofs.required_vos: theories/C26/Proofs.v theories/Base/Tactics.vos theories/Base/ListAux.vos theories/Lib/ArchTree.vos theories/C26/Model.vos
+theories/C26/Props.vo theories/C26/Props.glob theories/C26/Props.v.beautified theories/C26/Props.required_vo: theories/C26/Props.v theories/Base/Tactics.vo theories/Lib/ArchTree.vo theories/C26/Model.vo theories/C26/Proofs.vo
+theories/C26/Props.vio: theories/C26/Props.v theories/Base/Tactics.vio theories/Lib/ArchTree.vio theories/C26/Model.vio theories/C26/Proofs.vio
+theories/C26/Props.vos theories/C26/Props.vok theories/C26/Props.required_vos: theories/C26/Props.v theories/Base/Tactics.vos theories/Lib/ArchTree.vos theories/C26/Model.vos theories/C26/Proofs.vos
+theories/C27/Model.vo theories/C27/Model.glob theories/C27/Model.v.beautified theories/C27/Model.required_vo: theories/C27/Model.v 
+theories/C27/Model.vio: theories/C27/Model.v 
+theories/C27/Model.vos theories/C27/Model.vok theories/C27/Model.required_vos: theories/C27/Model.v 
+theories/C27/Proofs.vo theories/C27/Proofs.glob theories/C27/Proofs.v.beautified theories/C27/Proofs.required_vo: theories/C27/Proofs.v theories/C27/Model.vo
+theories/C27/Proofs.vio: theories/C27/Proofs.v theories/C27/Model.vio
+theories/C27/Proofs.vos theories/C27/Proofs.vok theories/C27/Proofs.required_vos: theories/C27/Proofs.v theories/C27/Model.vos
+theories/C27/Props.vo theories/C27/Props.glob theories/C27/Props.v.beautified theories/C27/Props.required_vo: theories/C27/Props.v theories/C27/Model.vo theories/C27/Proofs.vo
+theories/C27/Props.vio: theories/C27/Props.v theories/C27/Model.vio theories/C27/Proofs.vio
+theories/C27/Props.vos theories/C27/Props.vok theories/C27/Props.required_vos: theories/C27/Props.v theories/C27/Model.vos theories/C27/Proofs.vos
+theories/Lib/ArchTree.vo theories/Lib/ArchTree.glob theories/Lib/ArchTree.v.beautified theories/Lib/ArchTree.required_vo: theories/Lib/ArchTree.v theories/Base/Tactics.vo
+theories/Lib/ArchTree.vio: theories/Lib/ArchTree.v theories/Base/Tactics.vio
+theories/Lib/ArchTree.vos theories/Lib/ArchTree.vok theories/Lib/ArchTree.required_vos: theories/Lib/ArchTree.v theories/Base/Tactics.vos
 theories/Lib/Pareto.vo theories/Lib/Pareto.glob theories/Lib/Pareto.v.beautified theories/Lib/Pareto.required_vo: theories/Lib/Pareto.v theories/Base/Tactics.vo
 theories/Lib/Pareto.vio: theories/Lib/Pareto.v theories/Base/Tactics.vio
 theories/Lib/Pareto.vos theories/Lib/Pareto.vok theories/Lib/Pareto.required_vos: theories/Lib/Pareto.v theories/Base/Tactics.vos
